@@ -3,6 +3,7 @@ Line-protocol driver for the pure numeric models.   lake env lean --run Driver/P
   snap <isBuy> <priceBits> <tickBits>        -> V <num> <den>     (exact rational result, C19)
   snapf <isBuy> <priceBits> <tickBits>       -> V <bits>          (same expression in doubles)
   index <n> {<priceBits> <shares>}*           -> V <bits>          (Float instance, C17)
+  ledger … / logger …                         -> holdings after folding the fills (C05) / delivered | pending (C10)
   genpath <p0> {rbits}*                       -> V {bits}*          (chunk of a fundamental path, C12)
   fcn / mm / arb ...                          -> V … orders         (Float instance of the agent formulas, C20)
 -/
@@ -11,6 +12,8 @@ import PamsModel.Tick
 import PamsModel.Index
 import PamsModel.Agents
 import PamsModel.Fundamentals
+import PamsModel.Ledger
+import PamsModel.Logger
 
 open Proto
 
@@ -54,6 +57,37 @@ def stepLine (line : String) : List String :=
     match runP pComps rest with
     | .ok cs => [s!"V {(Pams.Index.indexValue cs).toBits.toNat}"]
     | .error e => [s!"E {e}"]
+  | "ledger" :: na :: nm :: rest =>
+    -- ledger <nAgents> <nMarkets> {cashBits {shares}*nMarkets}*nAgents <nFills> {buyer seller market priceBits vol}*
+    let na := na.toNat!; let nm := nm.toNat!
+    let per := 1 + nm
+    let init := rest.take (na * per)
+    let cash0 : Nat → Float := fun a => match init[a * per]? with | some t => fl t | none => 0.0
+    let sh0 : Nat → Nat → Int := fun a m => match init[a * per + 1 + m]? with | some t => t.toInt! | none => 0
+    let tl := rest.drop (na * per + 1)
+    let rec fills (l : List String) : List (Pams.Ledger.LFill Float) :=
+      match l with
+      | b :: s :: m :: p :: v :: tl' =>
+        { buyer := b.toNat!, seller := s.toNat!, market := m.toNat!, amount := fl p * Float.ofNat v.toNat!, vol := v.toNat! } :: fills tl'
+      | _ => []
+    let bk := Pams.Ledger.applyFills (· - ·) (· + ·) { cash := cash0, shares := sh0 } (fills tl)
+    ["V" ++ String.join ((List.range na).map (fun a =>
+      s!" {(bk.cash a).toBits.toNat}" ++ String.join ((List.range nm).map (fun m => s!" {bk.shares a m}"))))]
+  | "logger" :: rest =>
+    -- logger {w <x> | b <n> {x}* | d <x> | f}*   -> V {delivered}* | {pending}*
+    let rec ops (l : List String) : List (Pams.Logger.LOp Nat) :=
+      match l with
+      | "w" :: x :: tl => .write x.toNat! :: ops tl
+      | "d" :: x :: tl => .direct x.toNat! :: ops tl
+      | "f" :: tl => .flush :: ops tl
+      | "b" :: n :: tl =>
+        let k := n.toNat!
+        .bulkWrite ((tl.take k).map String.toNat!) :: ops (tl.drop k)
+      | _ => []
+    termination_by l.length
+    decreasing_by all_goals (simp_all; try omega)
+    let st := Pams.Logger.run ({ pending := [], delivered := [] } : Pams.Logger.LState Nat) (ops rest)
+    ["V" ++ String.join (st.delivered.map (fun x => s!" {x}")) ++ " |" ++ String.join (st.pending.map (fun x => s!" {x}"))]
   | "genpath" :: p0 :: rest =>
     let rs := rest.map fl
     ["V" ++ String.join ((Pams.Fund.genPath (fl p0) rs).map (fun x => s!" {x.toBits.toNat}"))]
